@@ -18,7 +18,7 @@ def gen_history(rng, p_call=0.12):
     ident = [rng.choice(TEXTS) for _ in range(4)]
     ops = ["svc %s %s %s %s %s" % (tuple(S.hx(x) for x in ident) + (S.hx(C.svc_descr()),))]
     hist = []
-    listening = False
+    listening = draining = False
     for _ in range(rng.choice([3, 6, 10, 16])):
         r = rng.random()
         if rng.random() < p_call:
@@ -31,9 +31,19 @@ def gen_history(rng, p_call=0.12):
             ops.append("reg %s %s" % (S.hx(name), S.hx(descr)))
             hist.append(("reg", name, descr))
         elif r < 0.55:
-            ops.append("listen" if not listening else "shutdown")
-            hist.append(("listen",) if not listening else ("shutdown",))
-            listening = not listening
+            if draining:
+                # the serving call is still draining the open connection: for the registry the service is still listening
+                op = rng.choice(["drop", "drop", "shutdown"])
+                draining = listening = False
+            elif listening:
+                op = rng.choice(["shutdown", "shutdown", "shutdown-keep"])
+                draining = op == "shutdown-keep"
+                listening = draining
+            else:
+                op = rng.choice(["listen", "listen2"])      # Bind + DoListen, or Listen
+                listening = True
+            ops.append(op)
+            hist.append((op,))
         elif r < 0.8:
             ops.append("info")
             hist.append(("info",))
@@ -56,10 +66,13 @@ def spec(ident, hist, results):
             if want == "o":
                 names.append(name)
                 descrs[name] = descr
-        elif op[0] == "listen":
+        elif op[0] in ("listen", "listen2"):
             listening = True
-        elif op[0] == "shutdown":
+        elif op[0] in ("shutdown", "drop"):
             listening = False
+        elif op[0] == "shutdown-keep":
+            if res != "draining":
+                return "Shutdown with an open connection: the serving call must keep draining, got %s" % res
         elif op[0] == "info":
             f = res.split(" ")
             fr = bytes.fromhex(f[1])
@@ -128,7 +141,7 @@ def resolver_case(rng):
 
 def main(pid, argv):
     ck = V.Check(pid, argv)
-    ck.rule = ("histories over {register(name, description), duplicate register, listen, register while listening, shutdown, register again, GetInfo, "
+    ck.rule = ("histories over {register(name, description), duplicate register, listen, register while listening (incl. while a stopped service still drains an open connection), shutdown, register again, listen again through Listen or Bind+DoListen, GetInfo, "
                "GetInterfaceDescription(name), call(method string) before and after registrations} on one real Service object with identity strings and descriptions from a pool (empty, unicode, control characters, "
                "quotes, long, invalid UTF-8); replies observed through HandleMessage directly and, while listening, through the client helpers; plus Resolver.GetInfo / "
                "Resolver.Resolve against a scripted resolver service. distinct = distinct histories; non-trivial = history with a refused registration or a description query")
